@@ -4,7 +4,7 @@ TIER=${1:-quick}; shift
 cd /verif
 IDS=${@:-$(ls seeded)}
 for id in $IDS; do
-  P=${id%%-*}; P=${P%b}; P=${P%r}
+  P=${id%%-*}; P=${P%b}; P=${P%r}; P=${P%s}
   if ! git -C /repo diff --quiet; then echo "$id /repo dirty"; exit 3; fi
   PATCH=/verif/seeded/$id/patch.diff; [ -f /verif/seeded/$id/patch-current.diff ] && PATCH=/verif/seeded/$id/patch-current.diff
   if ! git -C /repo apply --check $PATCH 2>/dev/null; then echo "$id $P NOAPPLY"; continue; fi
